@@ -14,11 +14,15 @@ import (
 	"errors"
 	"fmt"
 	"io"
+	"net/http"
 	"net/http/httptest"
 	"reflect"
 	"sort"
 	"strings"
+	"sync"
 	"testing"
+	"testing/synctest"
+	"time"
 
 	"github.com/modelcontextprotocol/go-sdk/internal/jsonrpc2"
 	"github.com/modelcontextprotocol/go-sdk/internal/verifx"
@@ -383,6 +387,114 @@ func c19Chunking(cases *verifx.Cases, thorough bool) {
 					}
 					cases.Record(idx, fmt.Sprintf("chunking eol=%q ended=%v ok", eol, lastEnded), 3, func() string { return desc })
 				}
+			}
+		}
+	}
+}
+
+// c19HoldBody delivers the given pieces, one per Read, and then stays open (silent) until closed,
+// like the body of a hanging GET.
+type c19HoldBody struct {
+	chunks [][]byte
+	closed chan struct{}
+	once   sync.Once
+}
+
+func (b *c19HoldBody) Read(p []byte) (int, error) {
+	for len(b.chunks) > 0 && len(b.chunks[0]) == 0 {
+		b.chunks = b.chunks[1:]
+	}
+	if len(b.chunks) == 0 {
+		<-b.closed
+		return 0, errors.New("body closed")
+	}
+	n := copy(p, b.chunks[0])
+	b.chunks[0] = b.chunks[0][n:]
+	return n, nil
+}
+
+func (b *c19HoldBody) Close() error {
+	b.once.Do(func() { close(b.closed) })
+	return nil
+}
+
+// c19SSEClientChunking: the same for the client side of the HTTP+SSE transport.  The event stream
+// of the hanging GET -- the endpoint event followed by three messages -- arrives cut into up to
+// three pieces at every pair of offsets (the server may have flushed messages together with the
+// endpoint event, or a proxy may have coalesced them); every delivery must hand the client exactly
+// the three messages, in order.
+func c19SSEClientChunking(t *testing.T, cases *verifx.Cases, thorough bool) {
+	texts := []string{
+		`{"jsonrpc":"2.0","id":1,"method":"ping"}`,
+		`{"jsonrpc":"2.0","method":"notifications/message","params":{"level":"info","data":"a\r\nb"}}`,
+		`{"jsonrpc":"2.0","id":9007199254740993,"method":"roots/list"}`,
+	}
+	var want [][]byte
+	for _, tx := range texts {
+		m, err := jsonrpc2.DecodeMessage([]byte(tx))
+		if err != nil {
+			panic(err)
+		}
+		w, _ := jsonrpc2.EncodeMessage(m)
+		want = append(want, w)
+	}
+	for _, eol := range []string{"\n", "\r\n"} {
+		stream := "event: endpoint" + eol + "data: /messages?sessionid=1" + eol + eol
+		for i, tx := range texts {
+			stream += "event: message" + eol + fmt.Sprintf("id: %d", i) + eol + "data: " + tx + eol + eol
+		}
+		for i := 0; i <= len(stream); i++ {
+			for j := i; j <= len(stream); j++ {
+				if !thorough && j != i && j != len(stream) && j-i > 2 {
+					continue
+				}
+				idx, mine := cases.Next()
+				if !mine {
+					continue
+				}
+				desc := fmt.Sprintf("eol=%q cut at %d and %d of %d bytes", eol, i, j, len(stream))
+				bad := ""
+				func() {
+					defer func() {
+						if r := recover(); r != nil {
+							bad = fmt.Sprintf("panic / bubble failure: %v", r)
+						}
+					}()
+					synctest.Test(t, func(t *testing.T) {
+						body := &c19HoldBody{chunks: [][]byte{[]byte(stream[:i]), []byte(stream[i:j]), []byte(stream[j:])}, closed: make(chan struct{})}
+						hx := &hxTransport{Intercept: func(req *http.Request, n int) (*http.Response, error) {
+							h := http.Header{}
+							h.Set("Content-Type", "text/event-stream")
+							return &http.Response{StatusCode: 200, Status: "200 OK", Header: h, Body: body, Proto: "HTTP/1.1", ProtoMajor: 1, ProtoMinor: 1}, nil
+						}}
+						ctx, cancel := context.WithTimeout(context.Background(), time.Minute)
+						defer cancel()
+						conn, err := (&SSEClientTransport{Endpoint: "http://peer.test/sse", HTTPClient: hx.client()}).Connect(ctx)
+						if err != nil {
+							bad = fmt.Sprintf("Connect: %v", err)
+							return
+						}
+						defer conn.Close()
+						for k := range want {
+							rctx, rcancel := context.WithTimeout(ctx, time.Second)
+							got, err := conn.Read(rctx)
+							rcancel()
+							if err != nil {
+								bad = fmt.Sprintf("message %d of 3 never arrived (%v): it was on the stream the server sent", k+1, err)
+								return
+							}
+							if g, _ := jsonrpc2.EncodeMessage(got); !bytes.Equal(g, want[k]) {
+								bad = fmt.Sprintf("message %d of 3 read as %s, sent %s", k+1, g, want[k])
+								return
+							}
+						}
+					})
+				}()
+				if bad != "" {
+					cases.Violate(idx, fmt.Sprintf("c19 sse-client-chunking eol=%q", eol), bad+" ["+desc+"]", 3)
+					continue
+				}
+				cases.Record(idx, fmt.Sprintf("sse client chunking eol=%q ok", eol), 3, func() string { return desc })
 			}
 		}
 	}
@@ -877,6 +989,7 @@ func TestVerifC19(t *testing.T) {
 		}
 	}
 	c19Chunking(env.NewCases(res, "ndjson-reader-chunking"), !env.Quick())
+	c19SSEClientChunking(t, env.NewCases(res, "sse-client-reader-chunking"), !env.Quick())
 	cc := env.NewCases(res, "content-and-required-members")
 	c19CheckContents(cc)
 	c19WireRequired(cc)
